@@ -44,6 +44,8 @@ def simulate(tla, cfg, num, depth, seed, workdir, extra=()):
     c = open(cfg).read()
     c = re.sub(r'^VIEW .*$', '', c, flags=re.M)
     c = re.sub(r'^CHECK_DEADLOCK .*$', 'CHECK_DEADLOCK FALSE', c, flags=re.M)
+    if 'MCSpecU' in open(tla).read():
+        c = re.sub(r'^SPECIFICATION MCSpec\s*$', 'SPECIFICATION MCSpecU', c, flags=re.M)
     simcfg = os.path.join(workdir, "sim.cfg")
     open(simcfg, "w").write(c)
     cmd = ["tlc", "-workers", "1", "-simulate", f"file={workdir}/tr/t,num={num}", "-depth", str(depth),
